@@ -1,8 +1,9 @@
 from common import *
 import itertools
 ID = 'C12'
-TRANSLATORS = []
-COQ_TARGETS = ['Properties_C12.vo']
+TRANSLATORS = [('consts2coq.py', ['coq/Gen/Consts.v'])]
+GEN_FILES = ['coq/Gen/Consts.v']
+COQ_TARGETS = ['Properties_C12.vo', 'Proof/ConstsSlip.vo']
 HARNESS_MODS = ['slip']
 RULE = ('cases: slip.spec sof payload (encoder output == specification of the encoding, within RFC1055_WORST_CASE) / slip.enc with source and sink fault '
         'scripts and both driver styles / slip.dec sof start-state stream scripts styles ncalls (repeated decode calls until the stream is exhausted; per call: '
